@@ -384,3 +384,34 @@ func (d *SQLDB) RawRow(id string, created int64) (string, bool) {
 	}
 	return "", false
 }
+
+// SQLRawRow is one stored row as the database holds it.
+type SQLRawRow struct {
+	ID        string
+	Created   int64
+	KeyRecord string
+}
+
+// Rows lists all rows in insertion order.
+func (d *SQLDB) Rows() []SQLRawRow {
+	d.mu.Lock()
+	defer d.mu.Unlock()
+	var res []SQLRawRow
+	for _, r := range d.rows {
+		res = append(res, SQLRawRow{r.id, r.created, r.keyRecord})
+	}
+	return res
+}
+
+// Put inserts a row written by "another implementation"; false if the primary key exists.
+func (d *SQLDB) Put(id string, created int64, keyRecord string) bool {
+	d.mu.Lock()
+	defer d.mu.Unlock()
+	for _, r := range d.rows {
+		if r.id == id && r.created == created {
+			return false
+		}
+	}
+	d.rows = append(d.rows, sqlRow{id, created, keyRecord, len(d.rows)})
+	return true
+}
